@@ -17,7 +17,7 @@ import shutil
 import tempfile
 
 from harness import gallina as G
-from harness.framework import SCRATCH
+from harness.framework import SCRATCH, REPO, COQ
 
 ID = "C27"
 COQ_DIRS = ["C27"]
@@ -26,6 +26,18 @@ RUN_IMPORTS = "From TV Require Import C27.Model C27.Run."
 RUN_FN = "run_case"
 CHECK_FN = "check_case"
 INPUT_TYPE = "case"
+
+
+
+def pre_build():
+    """regenerate Gen/C27_src.v from tornado/httputil.py of the tree under test (fails closed)"""
+    import importlib
+    import sys
+    sys.path.insert(0, os.path.join(os.path.dirname(COQ), "translators"))
+    import c27_src
+    importlib.reload(c27_src)
+    c27_src.emit(REPO, os.path.join(COQ, "Gen", "C27_src.v"))
+
 
 MTIME = 1600000000          # base modification time of every served file (whole seconds)
 EPOCH = datetime.datetime(1970, 1, 1, tzinfo=datetime.timezone.utc)
@@ -136,58 +148,91 @@ def ims_abs(s):
     return delta.days * 86400 + delta.seconds
 
 
-def run_request(case):
+def _request(head, name, rng_h, inm, ims):
+    """one request through Application -> StaticFileHandler with a recording connection"""
     from tornado import httputil
     st = _setup()
-    content = content_of(case)
-    mtime = MTIME + case.get("dm", 0)
-    name = _file_for(content, mtime)
     h = httputil.HTTPHeaders()
-    if case.get("range") is not None:
-        h["Range"] = case["range"]
-    inm = inm_of(case)
+    if rng_h is not None:
+        h["Range"] = rng_h
     if inm is not None:
         h["If-None-Match"] = inm
-    if case.get("ims") is not None:
-        h["If-Modified-Since"] = case["ims"]
+    if ims is not None:
+        h["If-Modified-Since"] = ims
     conn = _Conn()
-    method = "HEAD" if case["head"] else "GET"
-    req = httputil.HTTPServerRequest(method=method, uri="/s/" + name, version="HTTP/1.1", headers=h,
+    req = httputil.HTTPServerRequest(method="HEAD" if head else "GET", uri="/s/" + name, version="HTTP/1.1", headers=h,
                                      connection=conn, host="localhost")
 
     async def go():
         st["app"](req)
-        for _ in range(200):
+        for _ in range(400):
             if conn.finished:
                 break
             await asyncio.sleep(0)
 
     st["loop"].run_until_complete(go())
     if not conn.finished or conn.start_line is None:
-        return G.Tag("NoResponse")
+        return G.Tag("NoResponse"), None
     hd = {}
     for k, v in conn.headers:
         if k in hd:
-            return G.Tag("DuplicateHeader")
+            return G.Tag("DuplicateHeader"), None
         hd[k] = v
-    status = conn.start_line.code
+    cl = hd.get("Content-Length")
+    if cl is not None:
+        if not re.fullmatch(r"[0-9]+", cl):
+            return [G.Tag("BadContentLength"), cl], None
+        cl = int(cl)
+    return [conn.start_line.code, hd.get("Content-Range"), cl, list(conn.chunks)], hd
+
+
+def run_request(case):
+    content = content_of(case)
+    mtime = MTIME + case.get("dm", 0)
+    name = _file_for(content, mtime)
+    r, hd = _request(case["head"], name, case.get("range"), inm_of(case), case.get("ims"))
+    if hd is None:
+        return r
     # the inputs handed to the model must be what the handler itself used
     if hd.get("Etag") != etag_of(case):
         return [G.Tag("EtagInputMismatch"), hd.get("Etag") or ""]
     if hd.get("Last-Modified") != email.utils.formatdate(mtime, usegmt=True):
         return [G.Tag("MtimeInputMismatch"), hd.get("Last-Modified") or ""]
-    cl = hd.get("Content-Length")
-    if cl is not None:
-        if not re.fullmatch(r"[0-9]+", cl):
-            return [G.Tag("BadContentLength"), cl]
-        cl = int(cl)
-    res = [status, hd.get("Content-Range"), cl, b"".join(conn.chunks)]
+    res = r[:3] + [b"".join(r[3])]
     if wire_safe(case):
         # the same request as bytes through HTTPServer/HTTP1Connection must give the same answer
         w = run_wire(case, name)
         if w != res:
             return [G.Tag("WireDisagrees"), repr(w)[:200].encode("ascii", "replace").decode("ascii")]
     return res
+
+
+def big_content(case):
+    n, a, b = case["n"], case["a"], case["b"]
+    return bytes((i * a + b) % 251 for i in range(n))
+
+
+def poly_hash(data):
+    h = 0
+    for c in data:
+        h = (h * 257 + c) % 1000003
+    return h
+
+
+def run_big(case):
+    """a file larger than one 64 KiB read: observable = chunk sizes handed to the connection + hash of the body"""
+    content = big_content(case)
+    name = _file_for(content, MTIME)
+    r, hd = _request(case["head"], name, case.get("range"), None, None)
+    if hd is None:
+        return r
+    body = b"".join(r[3])
+    fake = {"k": "r", "head": case["head"], "content": "", "range": case.get("range"), "inm": None, "ims": None}
+    if wire_safe(fake):
+        w = run_wire(fake, name)
+        if w != r[:3] + [body]:
+            return [G.Tag("WireDisagrees"), repr(w)[:120].encode("ascii", "replace").decode("ascii")]
+    return r[:3] + [[len(c) for c in r[3]], poly_hash(body)]
 
 
 _WIRE_VALUE = re.compile(r"(?:[\x21-\x7e\x80-\xff](?:[\x21-\x7e\x80-\xff \t]*[\x21-\x7e\x80-\xff])?)?")
@@ -241,6 +286,11 @@ def run_wire(case, name):
 
 
 def run_impl(case):
+    if case["k"] == "c":
+        from tornado import httputil
+        return httputil._get_content_range(case["s"], case["e"], case["t"])
+    if case["k"] == "b":
+        return run_big(case)
     if case["k"] == "p":
         from tornado import httputil
         r = httputil._parse_request_range(case["h"])
@@ -259,6 +309,11 @@ def gtext(s):
 def coq_input(case):
     if case["k"] == "p":
         return "(CParse %s)" % gtext(case["h"])
+    if case["k"] == "c":
+        return "(CContentRange %s %s %s)" % (G.goption(case["s"], G.gz, "Z"), G.goption(case["e"], G.gz, "Z"), G.gz(case["t"]))
+    if case["k"] == "b":
+        return "(CBig %s %s %s %s %s)" % (G.gbool(case["head"]), G.gn(case["n"]), G.gn(case["a"]), G.gn(case["b"]),
+                                          G.goption(case.get("range"), gtext, "text"))
     inm = inm_of(case)
     ims = ims_abs(case.get("ims"))
     if ims is None:
@@ -268,7 +323,9 @@ def coq_input(case):
     else:
         gims = "(Some (Some %s))" % G.gz(ims)
     return "(mkreq %s %s %s %s %s %s %s)" % (
-        G.gbool(case["head"]), G.gbytes(content_of(case)), G.gbytes(etag_of(case)),
+        G.gbool(case["head"]), G.gbytes(content_of(case)),
+        # the model reads the Etag only when If-None-Match is non-empty (run_request checks the header on every case)
+        G.gbytes(etag_of(case)) if inm else "(@nil N)",
         G.goption(inm, lambda v: G.gbytes(v.encode("utf-8")), "(list N)"), gims,
         G.gz(MTIME + case.get("dm", 0)),
         G.goption(case.get("range"), gtext, "text"))
@@ -332,6 +389,26 @@ def whole(case):
 
 
 def py_check(case, o):
+    if case["k"] == "c":
+        s_, e_, t_ = case["s"], case["e"], case["t"]
+        return o == "bytes %d-%d/%d" % (s_ if s_ else 0, (e_ if e_ else t_) - 1, t_)
+    if case["k"] == "b":
+        if not (isinstance(o, list) and len(o) == 5 and not isinstance(o[0], G.Tag)):
+            return False
+        content = big_content(case)
+        # expected response by the range oracle, then the body cut into 64 KiB reads
+        spec, toolong = strict_spec(case["range"]) if case.get("range") else (None, False)
+        exp = expected(spec, len(content)) if spec else (0, len(content) - 1) if content else None
+        if spec is None or (exp and exp == (0, len(content) - 1)):
+            want, body = [200, None, len(content)], content
+        elif exp is None:
+            want, body = [416, "bytes */%d" % len(content), 0], b""
+        else:
+            want, body = [206, "bytes %d-%d/%d" % (exp[0], exp[1], len(content)), exp[1] - exp[0] + 1], content[exp[0]:exp[1] + 1]
+        if case["head"]:
+            body = b""
+        lens = [min(65536, len(body) - i) for i in range(0, len(body), 65536)]
+        return o == want + [lens, poly_hash(body)]
     if case["k"] == "p":
         h = case["h"]
         spec, toolong = strict_spec(h)
@@ -537,13 +614,13 @@ def gen_cases(rng, tier):
               "bytes=18446744073709551616-", "bytes=-18446744073709551616", "bytes=4294967296-4294967297"]:
         out.append(req(False, c, h))
         out.append(pcase(h))
-    if not quick:      # the int() digit limit: the exact boundary is in the corpus, more around it here
-        for nd in [4299, 4300, 4301, 4400]:
-            out.append(pcase("bytes=" + "9" * nd + "-"))
-            out.append(pcase("bytes=-" + "0" * (nd - 1) + "5"))
-            out.append(req(False, c, "bytes=" + "0" * (nd - 1) + "4-"))
+    heavy = []
+    if not quick:      # the int() digit limit: the exact boundary is in the corpus, a few more around it (spread below)
+        heavy = [pcase("bytes=" + "9" * 4300 + "-"), pcase("bytes=-" + "0" * 4298 + "5"), pcase("bytes=1-" + "9" * 4301),
+                 pcase("bytes=-" + "0" * 4399 + "5"), req(False, c, "bytes=" + "0" * 4300 + "4-")]
     # 6. parser alone: every value string over a small alphabet up to length L (after 'bytes=')
     L = 3 if quick else 5
+    p6 = len(out)
     for v in enum_strings("01-", L + 1) + enum_strings("1- ,+_٣", L):
         out.append(pcase("bytes=" + v))
     # 7. random mutations of valid headers (malformed stream)
@@ -563,12 +640,42 @@ def gen_cases(rng, tier):
         out.append(pcase(h))
         if rng.random() < 0.3:
             out.append(req(rng.random() < 0.3, rand_content(rng, rng.randrange(0, 30)), h))
+    # 8. If-None-Match lists: random entity-tag lists, strong/weak, with and without the file's tag
+    tags = ["@E", "W/@E", '"x"', 'W/"y"', '""', 'W/""', '"a,b"', '"W/"']
+    seps = [",", ", ", " ,", " , ", ",\t", ",,", " "]
+    for _ in range(25 if quick else 250):
+        k = rng.randrange(1, 5)
+        pool = tags if rng.random() < 0.6 else tags[2:]
+        v = rng.choice(["", " "]) + "".join(rng.choice(pool) + rng.choice(seps) for _ in range(k - 1)) + rng.choice(pool) + rng.choice(["", " ", ","])
+        if rng.random() < 0.15:
+            v = v.replace('"', "", 1)       # a malformed list: one quote missing
+        out.append(req(rng.random() < 0.3, rand_content(rng, rng.choice([0, 5, 9])), rng.choice([None, "bytes=1-3", "bytes=x"]), v,
+                       ims_string(rng.choice([None, "=", "<"]), 0)))
+    # 9. httputil._get_content_range called directly (all small combinations, incl. 0 / negative values)
+    vals = [None, 0, 1, 5, -3] if quick else [None, 0, 1, 2, 5, 9, 10, -1, -3, 10 ** 20]
+    for s_ in vals:
+        for e_ in vals:
+            for t_ in ([0, 1, 10] if quick else [0, 1, 9, 10, 11, 10 ** 20]):
+                out.append({"k": "c", "s": s_, "e": e_, "t": t_})
+    # 10. files larger than one 64 KiB read (generated content; chunk sizes + hash observed), spread over the shards
+    big = [(False, 65537, None), (False, 140000, "bytes=-131073"), (False, 70000, "bytes=3-69000"), (True, 70000, None)]
+    if not quick:
+        big += [(False, 65536, None), (False, 65536, "bytes=1-"), (False, 131072, None), (False, 131073, "bytes=0-131071"),
+                (False, 70000, "bytes=65535-65536"), (False, 70000, "bytes=4464-"), (False, 66000, "bytes=70000-"), (True, 140000, "bytes=1-")]
+    # expensive cases go one per shard; in the thorough tier into the (cheap) parser-enumeration shards
+    base = 150 if quick else p6 + 150
+    for i, (head, n, h) in enumerate(big):
+        out.insert(min(len(out), base + 300 * i), {"k": "b", "head": head, "n": n, "a": rng.randrange(1, 250), "b": rng.randrange(0, 251), "range": h})
+    for i, hc in enumerate(heavy):
+        out.insert(min(len(out), base + 300 * (len(big) + i)), hc)
     return out
 
 
 # ---------------------------------------------------------------- bookkeeping
 
 def header_of(case):
+    if case["k"] == "c":
+        return None
     return case["h"] if case["k"] == "p" else case.get("range")
 
 
@@ -582,6 +689,10 @@ def signature(case, o):
 def nontrivial(case, o):
     if case["k"] == "p":
         return ("p", case["h"])
+    if case["k"] == "c":
+        return ("c", case["s"], case["e"], case["t"])
+    if case["k"] == "b":
+        return ("b", case["head"], case["n"], case["a"], case["b"], case.get("range"))
     if case.get("range") is None and case.get("inm") is None and case.get("ims") is None and not case["head"] and not case["content"]:
         return None
     return ("r", case["head"], case["content"], case.get("range"), case.get("inm"), case.get("ims"), case.get("dm", 0))
@@ -589,6 +700,13 @@ def nontrivial(case, o):
 
 def classify(case, o):
     h = header_of(case)
+    if case["k"] == "c":
+        yield "kind=content-range-fn"
+        return
+    if case["k"] == "b":
+        yield "kind=big-file"
+        yield "chunks=%s" % (len(o[3]) if isinstance(o, list) and len(o) == 5 else "?")
+        return
     if case["k"] == "p":
         yield "kind=parser"
         yield "parse=" + ("none" if o is None else "tuple")
@@ -608,6 +726,8 @@ def classify(case, o):
 
 def shrink(case):
     """few candidates only: every candidate costs a coqc run in the framework"""
+    if case["k"] in ("c", "b"):
+        return
     if case["k"] == "p":
         h = case["h"]
         if len(h) > 1:
@@ -631,6 +751,7 @@ def shrink(case):
 
 
 TRUSTED_BASE = [
+    "translators/c27_src.py (ast-based, fail-closed reader of httputil._int_or_none/_parse_request_range/_get_content_range -> Gen/C27_src.v; Gen/C27_equiv.v proves the result equal to the model; parser cases of the correspondence run the generated definition)",
     "the file system (os.stat size == number of bytes read; no concurrent modification), mimetypes, hashlib.sha512: the Etag value is an input of the model and the harness checks it equals the Etag header the handler sent",
     "email.utils.parsedate_to_datetime: If-Modified-Since enters the model as its parsed value (computed by the harness with the same two lines as the handler)",
     "Python str.strip()/str.isspace whitespace set, re [0-9], int() and its 4300-digit limit, utf8(): modelled and compared on every run, not derived from CPython source",
@@ -641,13 +762,16 @@ ASSUMPTIONS = ["code points < 2^21 (text is a list of code points), file bytes <
 RULE = ("file sizes 0..N x boundary byte ranges (a-b, a-, -k around 0, size-1, size, size+1, huge) x GET/HEAD; exhaustive a,b,k over small sizes; "
         "invalid-syntax catalogue (signs, underscores, non-ASCII digits, inner blanks, multiple ranges) and every Python whitespace character at every position; "
         "If-None-Match / If-Modified-Since combinations; parser-only enumeration of all value strings over small alphabets; random edits of valid headers. "
+        "random If-None-Match entity-tag lists; _get_content_range called directly on all small (start, end, total); files of 64 KiB..140000 generated bytes observed as chunk sizes + polynomial hash. "
         "distinct by full input; non-trivial = anything but a plain GET of an empty file")
 LEVEL_TEXT = ("Machine-checked (Coq) proofs over an executable model of _parse_request_range/_int_or_none, the range block of StaticFileHandler.get, "
               "get_content, _get_content_range, should_return_304 and check_etag_header: for every file, method and header combination the response is "
               "200-whole / 206 with the exact slice and Content-Range / 416 with bytes */size / 304 empty, Content-Length equals the body length, HEAD equals GET "
               "without the body, the accepted Range language is exactly the single byte-range grammar (plus optional blanks around unit and value) with RFC 7233 "
               "semantics, and every other header is ignored -- except dash-less values such as 'bytes=5', which the code serves as 'bytes=5-' (refuted witness, known finding). "
-              "The model is compared with the real handler (real files, Application routing, recording connection) on every generated case.")
+              "Also proved: If-None-Match lists are matched by weak comparison, If-Modified-Since only counts without If-None-Match, 304 precedes Range, and the 64 KiB read loop of get_content "
+              "terminates and yields non-empty chunks of at most the chunk size that concatenate to the slice. The three httputil functions are re-translated from the source on every run and proved equal to the model. "
+              "The model is compared with the real handler (real files, Application routing, recording connection, and the same request as bytes through HTTPServer) on every generated case.")
 LEVEL_NOTE = ("Trusted: Coq kernel/vm_compute; the hand-written model is tied to /repo only by the correspondence run; sha512, the date parser and the file system are inputs "
               "of the model; HTTP1Connection's framing of the response is outside this property (C02/C03).")
-TECHNIQUE = "Coq proof (list/Z arithmetic, decimal print/parse round trip, grammar soundness+completeness of the parser) + differential correspondence via vm_compute + independent Python regex oracle"
+TECHNIQUE = "Coq proof (ast translator from httputil.py + equivalence, loop refinement with fuel bound, list/Z arithmetic, decimal print/parse round trip, grammar soundness+completeness of the parser) + differential correspondence via vm_compute + independent Python regex oracle"
